@@ -174,7 +174,7 @@ static void m_consume(int after_loop)
 				failk(d, "early", byname[m.by[d]], "timeout fired at %lld, interval runs until %lld", e->t, m.deadline[d]);
 				break;
 			}
-			MC_COUNT(d == R ? "timeout_read_matched" : "timeout_write_matched");
+			if (d == R) MC_COUNT("timeout_read_matched"); else MC_COUNT("timeout_write_matched");
 			m.en[d] = 0; m.armed[d] = 0;
 		}
 	}
@@ -186,7 +186,7 @@ static void m_consume(int after_loop)
 				failk(d, "missing", byname[m.by[d]], "no timeout although idle since %lld (now %lld)", m.deadline[d] - m.tmo[d], vclock_us);
 				return;
 			}
-			if (m.armed[d]) MC_COUNT(d == R ? "loop_with_read_timer_running" : "loop_with_write_timer_running");
+			if (m.armed[d]) { if (d == R) MC_COUNT("loop_with_read_timer_running"); else MC_COUNT("loop_with_write_timer_running"); }
 		}
 		/* the direction must really be disabled after a timeout, and only then */
 		short en = bufferevent_get_enabled(B);
